@@ -156,6 +156,34 @@ let handle (line : string) : string =
        | Inr NValue -> "valueerror")
   | ["escape"; isb; p] -> enc_str (escape (dec_bool isb) (dec_str p))
   | ["ismagic"; isb; fl; p] -> enc_bool (is_magic (dec_bool isb) (z_of_int (int_of_string fl)) (dec_str p))
+  | ["glob"; cfgbits; pats; sd; lx; sm; xm] ->
+      let bit i = cfgbits.[i] = '1' in
+      let cf = { g_dot = bit 0; g_follow = bit 1; g_cs = bit 2; g_mark = bit 3; g_nounique = bit 4; g_pathlib = bit 5; g_has_excl = bit 6 } in
+      let split c s = if s = "" || s = "[]" then [] else String.split_on_char c s in
+      let parse_part s =
+        (match String.split_on_char ':' s with
+         | [p; id; fl] -> { p_pat = dec_str p; p_id = n_of_int (int_of_string id); p_magic = (fl.[0] = '1'); p_gstar = (fl.[1] = '1');
+                            p_gstarlong = (fl.[2] = '1'); p_dironly = (fl.[3] = '1'); p_drive = (fl.[4] = '1') }
+         | _ -> failwith "part") in
+      let patterns = List.map (fun p -> List.map parse_part (split ',' p)) (split ';' pats) in
+      let sdt = List.map (fun e ->
+          match String.split_on_char '=' e with
+          | [k; v] -> (dec_str k,
+                       if v = "ERR" then None else
+                       Some (List.map (fun x -> match String.split_on_char ':' x with
+                                        | [n; dd; l] -> { e_name = dec_str n; e_dir = (if dd = "E" then None else Some (dd = "1")); e_link = (l = "1") }
+                                        | _ -> failwith "ent") (split ',' v)))
+          | _ -> failwith "sd") (split ';' sd) in
+      let kv2 s = List.map (fun e -> match String.split_on_char ':' e with [k; v] -> (dec_str k, v = "1") | _ -> failwith "kv") (split ';' s) in
+      let lxt = kv2 lx and xmt = kv2 xm in
+      let smt = List.map (fun e -> match String.split_on_char ':' e with [i; n; v] -> ((int_of_string i, dec_str n), v = "1") | _ -> failwith "sm") (split ';' sm) in
+      let find t k = (try List.assoc k t with Not_found -> raise Exit) in
+      (try
+        (match glob_all (fun dpath -> find sdt dpath) (fun p -> find lxt p) (fun id n -> find smt (int_of_n id, n)) (fun n -> find xmt n)
+                 cf (nat_of_int 200) patterns with
+         | Some l -> "ok " ^ enc_list enc_str l
+         | None -> "fuel")
+      with Exit -> "oraclemiss")
   | _ -> "badrequest"
 
 let () =
